@@ -67,6 +67,8 @@ func other(s byte) byte {
 	return 'h'
 }
 
+const lateBulk = 400 * 1024
+
 // mux_route — C06: Dial(id) meets Accept(id) and nobody else.
 // params: pat = comma-separated per-id patterns "<dialside><order><gapms>",
 // dialside h|p, order A (accept issued first) | D (dial issued first).
@@ -115,6 +117,22 @@ func init() {
 						x.Fail("S", "acceptor %d: payload corrupted", id)
 					}
 					c.Write(hdr)
+					if p["late"] == "1" {
+						// much later, bulk data in both directions (more than yamux's 256 KiB window each way)
+						bulk := make([]byte, lateBulk)
+						c.SetReadDeadline(time.Now().Add(60 * time.Second))
+						if n, err := io.ReadFull(c, bulk); err != nil {
+							x.Fail("S", "acceptor %d: late bulk data: %d of %d bytes arrived: %v", id, n, lateBulk, err)
+							return
+						}
+						if string(bulk) != string(pattern(byte(id)+1, lateBulk)) {
+							x.Fail("S", "acceptor %d: late bulk data corrupted", id)
+						}
+						if n, err := c.Write(pattern(byte(id)+2, lateBulk)); err != nil {
+							x.Fail("S", "acceptor %d: late bulk write: %d of %d bytes written: %v", id, n, lateBulk, err)
+							return
+						}
+					}
 					x.Obs("accept%d ok", id)
 				})
 				d.goIn(ddom, fmt.Sprintf("dial%d", id), func() {
@@ -142,6 +160,22 @@ func init() {
 					}
 					if string(echo) != string(hdr) {
 						x.Fail("S", "dialler %d: echo of another token", id)
+					}
+					if p["late"] == "1" {
+						x.Pause(6 * time.Second)
+						if n, err := c.Write(pattern(byte(id)+1, lateBulk)); err != nil {
+							x.Fail("S", "dialler %d: late bulk write on the dialled connection: %d of %d bytes written: %v", id, n, lateBulk, err)
+							return
+						}
+						bulk := make([]byte, lateBulk)
+						c.SetReadDeadline(time.Now().Add(60 * time.Second))
+						if n, err := io.ReadFull(c, bulk); err != nil {
+							x.Fail("S", "dialler %d: late bulk data: %d of %d bytes arrived: %v", id, n, lateBulk, err)
+							return
+						}
+						if string(bulk) != string(pattern(byte(id)+2, lateBulk)) {
+							x.Fail("S", "dialler %d: late bulk data corrupted", id)
+						}
 					}
 					x.Obs("dial%d ok", id)
 				})
